@@ -15,6 +15,7 @@
 # You should have received a copy of the GNU General Public License along with
 # this program. If not, see <http://www.gnu.org/licenses/>.
 
+import functools
 from typing import List, Literal
 
 import z3
@@ -32,6 +33,30 @@ class Constraint(NamedUIDObject):
     """The base class for all constraints, including Task and Resource constraints."""
 
     optional: bool = Field(default=False)
+
+    @classmethod
+    def __pydantic_init_subclass__(cls, **kwargs) -> None:
+        """A constraint is stored into the problem by Constraint.__init__, before the
+        constructor of its class checks the parameters: if this check fails, the constraint
+        does not belong to the problem."""
+        super().__pydantic_init_subclass__(**kwargs)
+        subclass_init = cls.__dict__.get("__init__")
+        if subclass_init is None:
+            return
+
+        @functools.wraps(subclass_init)
+        def init_or_unregister(self, **data) -> None:
+            try:
+                subclass_init(self, **data)
+            except Exception:
+                problem = processscheduler.base.active_problem
+                if problem is not None:
+                    for name, constraint in list(problem.constraints.items()):
+                        if constraint is self:
+                            del problem.constraints[name]
+                raise
+
+        cls.__init__ = init_or_unregister
 
     def __init__(self, **data) -> None:
         super().__init__(**data)
